@@ -911,7 +911,7 @@ func Main(t *testing.T, c Check) {
 				}
 			}
 			if reproduced == 0 {
-				res.engineErrs = append(res.engineErrs, fmt.Sprintf("violation sig=%s scenario=%q choices=[%s] case=%q reproduced 0/%d times", sig, v.Scenario, csv(v.Choices), v.Case, reruns))
+				res.engineErrs = append(res.engineErrs, fmt.Sprintf("violation sig=%s scenario=%q choices=[%s] case=%q reproduced 0/%d times; detail: %s", sig, v.Scenario, csv(v.Choices), v.Case, reruns, trunc(v.Detail, 600)))
 				continue
 			}
 			if reproduced != reruns {
